@@ -51,7 +51,21 @@ T_Bm == /\ IsEv("bm")
         /\ UNCHANGED <<devs, used>>
         /\ Rec[l].octets = ComposeBitmap(Range(Rec[l].adds))
 
-TNext == T_Devs \/ T_Rd \/ T_Bm
+\* an OPT record assembled from constructor arguments (any arguments: the
+\* specification says which are refused and what the others are normalised to)
+T_OptBuild ==
+  /\ IsEv("optbuild")
+  /\ UNCHANGED devs
+  /\ LET q == Rec[l].pushes
+         obs == Rec[l].obs
+     IN IF OptBuildOdd(q) = {}
+        THEN obs = OptBuildExp(q) /\ UNCHANGED used
+        ELSE IF obs = OptBuildExp(q) THEN UNCHANGED used
+        ELSE /\ "D_understood_odd_len" \in devs
+             /\ obs = OptBuildExpOddDev(q)
+             /\ used' = used \cup {"D_understood_odd_len"}
+
+TNext == T_Devs \/ T_Rd \/ T_Bm \/ T_OptBuild
 TSpec == TInit /\ [][TNext]_tvars
 
 Accepted ==
